@@ -607,6 +607,28 @@ def run_s13(chk):
             r.ok('%s#%d' % (rel, i))
 
 
+def run_s14(chk):
+    """an unrolled clear loop must advance: the same store issued twice in a row wipes one place twice and leaves the next one"""
+    from .. import insnscan
+    r = chk.rule('S14', 'no assembled routine issues the same store (same mnemonic, address, mask and source register) twice in a row: in an '
+                        'unrolled clear / copy loop the address was meant to advance, and what should have been wiped stays (decides K19)', floor=200)
+    fx = insnscan.repeat_store_fixture()
+    bad = {f['fn'] for f in fx['repeats']}
+    if 's14_fixture_bad' not in bad or 's14_fixture_good' in bad:
+        chk.broken('S14: the repeated-store scan does not separate its positive fixture from the negative one')
+    for rel, v in sorted(insnscan.repeat_stores().items()):
+        seen = set()
+        for f in v['repeats']:
+            key = '%s:%s:%s' % (rel, f['fn'], ' '.join(f['txt'].split()))
+            if key in seen:
+                continue
+            seen.add(key)
+            r.bad(key, rel, '%s (%s): `%s` at +%#x repeats the store before it unchanged: the unrolled loop does not advance, the places behind '
+                            'the first one are never written' % (f['fn'], rel, ' '.join(f['txt'].split()), f['a']))
+        r.ok('%s' % rel, '%d stores' % v['stores'])
+    return r
+
+
 def run(chk):
     P = cf.Program()
     chk.explanation = ('Partial: each clause is a necessary condition of the SAFE_DATA promise. C side: locals the code itself scrubs are '
@@ -625,6 +647,7 @@ def run(chk):
     from . import twins
     twins.rule_copy_siblings(chk, P, 'X5', floor=100)
     run_s13(chk)
+    run_s14(chk)
     run_s10(chk, P)
     run_s11(chk, P)
     # S4: road block coverage and whole-manager clears (shared)
